@@ -337,20 +337,23 @@ fn escape_one_char(c: char) -> String {
     '\r' => "\\r".to_owned(),
     '\t' => "\\t".to_owned(),
     '"' => "\\\"".to_owned(),
-    '\'' => "'".to_owned(),
+    '\'' => "\\'".to_owned(),
+    '%' => "%%".to_owned(),
+    '$' => "$$".to_owned(),
+    ';' => "\\x3b".to_owned(),
     '*' => "\\x2a".to_owned(),
     '?' => "\\x3f".to_owned(),
     _ => {
       if c.is_control() {
         let i = c as u64;
         if i < 128 {
-          format!("\\x{:0>2}", i)
+          format!("\\x{:02x}", i)
         }
         else if i < 0x10000 {
-          format!("\\u{:0>4}", i)
+          format!("\\u{:04x}", i)
         }
         else {
-          format!("\\U{:0>8}", i)
+          format!("\\U{:08x}", i)
         }
       }
       else {
